@@ -141,7 +141,7 @@ func (g *G) method(s *m.Service, scope map[string]bool) {
 	bodyVerbs := []string{"POST", "PUT", "PATCH", "POST"}
 	noBodyVerbs := []string{"GET", "DELETE", "GET"}
 	if g.p.AllVerbs {
-		noBodyVerbs = append(noBodyVerbs, "HEAD", "OPTIONS", "TRACE")
+		noBodyVerbs = append(noBodyVerbs, "OPTIONS", "TRACE") // (HEAD forbids response bodies, including error bodies)
 	}
 	hasBodyVerb := true
 	verb := rapid.SampledFrom(bodyVerbs).Draw(t, "verb")
@@ -463,7 +463,7 @@ func (g *G) routes(s *m.Service, meth *m.Method, verb string) {
 		for i := 0; i < n; i++ {
 			v := verb
 			if rapid.Bool().Draw(t, "otherverb") {
-				if verb == "GET" || verb == "DELETE" || verb == "HEAD" || verb == "OPTIONS" || verb == "TRACE" {
+				if verb == "GET" || verb == "DELETE" || verb == "OPTIONS" || verb == "TRACE" {
 					v = rapid.SampledFrom([]string{"GET", "DELETE"}).Draw(t, "nbverb2")
 				} else {
 					v = rapid.SampledFrom([]string{"POST", "PUT", "PATCH"}).Draw(t, "bverb2")
@@ -616,6 +616,9 @@ func (g *G) mapObjectResult(meth *m.Method) {
 				canHeader = false
 			}
 		}
+		if canHeader && g.d.Underlying(f.Attr) != m.String && g.avoid("C07-openapi2-response-header-go-type-names") {
+			canHeader = false
+		}
 		opts := []string{"body", "body", "body"}
 		if g.p.RespHeaders && canHeader {
 			opts = append(opts, "header", "header")
@@ -703,7 +706,7 @@ func (g *G) methodErrors(s *m.Service, meth *m.Method) {
 		}
 		meth.Errors = append(meth.Errors, e)
 		er := &m.ErrorResponse{Name: e.Name, Status: rapid.SampledFrom(statuses).Draw(t, "estatus"), Level: "method"}
-		if e.Type != nil && e.Type.Type.Kind == m.User && rapid.Bool().Draw(t, "errheader") {
+		if e.Type != nil && e.Type.Type.Kind == m.User && rapid.Bool().Draw(t, "errheader") && !g.avoid("C07-openapi2-response-header-go-type-names") {
 			er.Headers = []m.Mapping{{Attr: "code", Wire: "X-Err-Code"}}
 			g.feat("error-response-header")
 		}
